@@ -130,11 +130,16 @@ def sweep_part(chk, tier, seed):
     deep = []
     for fam in sorted({c["family"] for c in cells}):
         kind = next(c["kind"] for c in cells if c["family"] == fam)
-        if kind == "finite" and fam not in ("selfchain", "localchain", "superchain", "pluschain"):
+        if kind == "finite" and fam not in ("selfchain", "localchain", "superchain", "pluschain", "plusfold"):
             for d, s in ((5000, 500), (5000, 1000000)) + (((30000, 1000000),) if tier == "thorough" else ()):
                 deep.append({"family": fam, "kind": kind, "d": d, "s": s})
         elif kind != "finite":
             deep.append({"family": fam, "kind": kind, "d": 0, "s": 200000 if tier == "thorough" else 50000})
+    # limits far beyond any depth (people "disable" the limit this way): same outcome as any large limit
+    for fam in ("call", "nestarr_eq", "selfchain", "cyc_field"):
+        kind = next(c["kind"] for c in cells if c["family"] == fam)
+        for s_ in (4294967296, 9223372036854775807, 18446744073709551615):
+            deep.append({"family": fam, "kind": kind, "d": 21, "s": s_})
     allc = cells + deep
     cases = [{"k": "eval", "src": program(c["family"], c["d"]), "max_stack": c["s"], "manifest": "single"} for c in allc]
     results = run_cases(cases, "c10_sweep", timeout_ms=20000)
@@ -143,6 +148,10 @@ def sweep_part(chk, tier, seed):
         out, val = outcome(r)
         table[(c["family"], c["d"], c["s"])] = (out, val, case, c["kind"])
         chk.count(key=f"{c['family']}:{c['d']}:{c['s']}", nontrivial=(c["kind"] != "finite" or c["d"] > 0))
+    # TLC integers are 32-bit: limits beyond 2*10^9 are mapped, order preserved, to 2*10^9 + rank
+    big = sorted({k[2] for k in table if k[2] > 2_000_000_000})
+    def tl(s_):
+        return s_ if s_ <= 2_000_000_000 else 2_000_000_001 + big.index(s_)
     # build the trace: row scans and column scans per family
     lines, owners = [], []
     fams = sorted({k[0] for k in table})
@@ -153,14 +162,14 @@ def sweep_part(chk, tier, seed):
             row = [(s, table[(fam, d, s)]) for s in svals if (fam, d, s) in table]
             lines.append({"ev": "row", "family": fam}); owners.append(None)
             for s, (out, val, case, kind) in row:
-                lines.append({"ev": "cell", "family": fam, "d": d, "s": s, "out": out, "val": val}); owners.append((fam, d, s))
+                lines.append({"ev": "cell", "family": fam, "d": d, "s": tl(s), "out": out, "val": val}); owners.append((fam, d, s))
         for s in svals:
             col = [(d, table[(fam, d, s)]) for d in dvals if (fam, d, s) in table]
             if len(col) < 2:
                 continue
             lines.append({"ev": "col", "family": fam}); owners.append(None)
             for d, (out, val, case, kind) in col:
-                lines.append({"ev": "cell", "family": fam, "d": d, "s": s, "out": out, "val": val}); owners.append((fam, d, s))
+                lines.append({"ev": "cell", "family": fam, "d": d, "s": tl(s), "out": out, "val": val}); owners.append((fam, d, s))
     # validate with TLC; on a rejection report the cell, drop its scan, continue
     d_ = vlib.workdir("traces")
     rnd = 0
